@@ -190,18 +190,32 @@ fn run_case(cfg: &Value, case: &Value, ln: usize) -> (Vec<Mismatch>, Value, Vec<
                 for (k, op) in ops.iter().enumerate() {
                     let item = idx * 10 + (k as i64 + 1);
                     set_current_item(item);
-                    if op != "weCb" && op != "blockTokio" {
+                    if op != "weCb" && op != "weCbPanic" && op != "blockTokio" {
                         rec.log(json!({"ev": "SendCall", "item": item, "kind": match op.as_str() { "send" => "send", "try" => "try", _ => "block" }}));
                     }
-                    if op == "weCb" {
-                        // a raw when_empty with an observed callback
+                    if op == "weCb" || op == "weCbPanic" {
+                        // a raw when_empty with an observed callback (weCbPanic: which then panics -
+                        // inline on this thread when the queue is empty, else on the receiver)
                         let w = format!("e_{name}");
                         set_current_empty_watcher(Some(&w));
                         let (obs2, rec2, name2) = (obs.clone(), rec.clone(), name.clone());
-                        sender.when_empty(move || {
-                            rec2.log(json!({"ev": "EmptyFired", "w": format!("e_{name2}")}));
-                            *obs2.lock().unwrap().efired.entry(name2.clone()).or_insert(0) += 1;
-                        });
+                        let panics = op == "weCbPanic";
+                        let r = std::panic::catch_unwind(std::panic::AssertUnwindSafe(|| {
+                            sender.when_empty(move || {
+                                rec2.log(json!({"ev": "EmptyFired", "w": format!("e_{name2}")}));
+                                *obs2.lock().unwrap().efired.entry(name2.clone()).or_insert(0) += 1;
+                                if panics {
+                                    panic!("scripted panic in a when_empty callback");
+                                }
+                            })
+                        }));
+                        if let Err(e) = r {
+                            // the caller's own callback panicking inline is the caller's business; the
+                            // tear-down abort and anything else is passed on
+                            if !panics || e.downcast_ref::<AbortToken>().is_some() {
+                                std::panic::resume_unwind(e);
+                            }
+                        }
                         set_current_empty_watcher(None);
                         obs.lock().unwrap().sres.entry(name.clone()).or_default().push("registered".to_string());
                         continue;
@@ -274,10 +288,17 @@ fn run_case(cfg: &Value, case: &Value, ln: usize) -> (Vec<Mismatch>, Value, Vec<
         }));
     }
     // flusher threads
+    // "flushInfSame" flushers have no thread of their own: the thread of the "flush0" flusher runs
+    // them after its own call returned
+    let same_thread: Vec<String> = flusher_ops(cfg).iter().filter(|(_, op)| op.as_str() == Some("flushInfSame")).map(|(n, _)| n.clone()).collect();
     for (name, op) in flusher_ops(cfg) {
         let (sched, obs, sender, name, step_no, rec) = (sched.clone(), obs.clone(), sender.clone(), name.clone(), step_no.clone(), rec.clone());
         let op = op.as_str().unwrap().to_string();
+        if op == "flushInfSame" {
+            continue;
+        }
         let op2 = op.clone();
+        let followers = if op == "flush0" { same_thread.clone() } else { Vec::new() };
         handles.push(std::thread::spawn(move || {
             sched.register(&name);
             set_current_watcher(&name, op == "cbPanic" || op == "cbPark");
@@ -338,11 +359,35 @@ fn run_case(cfg: &Value, case: &Value, ln: usize) -> (Vec<Mismatch>, Value, Vec<
                     obs.lock().unwrap().fret.insert(name.clone(), if r { "true" } else { "false" }.to_string());
                 }
             }));
+            let mut aborted = false;
             if let Err(e) = r {
                 // (a cbPanic callback fired immediately panics on this thread by design)
-                if e.downcast_ref::<AbortToken>().is_none() && op2 != "cbPanic" {
+                aborted = e.downcast_ref::<AbortToken>().is_some();
+                if !aborted && op2 != "cbPanic" {
                     // (cbPanic fired immediately panics on this thread by design)
                     rec.log(json!({"ev": "CallerPanicked", "op": "flush"}));
+                }
+            }
+            // the same thread flushes again, as the next flusher(s) of the specification
+            for f in followers {
+                if aborted {
+                    break;
+                }
+                sched.finish();
+                sched.register(&f);
+                set_current_watcher(&f, false);
+                let r = std::panic::catch_unwind(std::panic::AssertUnwindSafe(|| {
+                    set_current_call_timeout(Some(LONG));
+                    let r = emit_batcher::sync::blocking_flush(&*sender, LONG);
+                    set_current_call_timeout(None);
+                    rec.log(json!({"ev": "FlushRet", "w": f, "ret": r}));
+                    obs.lock().unwrap().fret.insert(f.clone(), if r { "true" } else { "false" }.to_string());
+                }));
+                if let Err(e) = r {
+                    aborted = e.downcast_ref::<AbortToken>().is_some();
+                    if !aborted {
+                        rec.log(json!({"ev": "CallerPanicked", "op": "flush"}));
+                    }
                 }
             }
             drop(sender);
@@ -352,7 +397,7 @@ fn run_case(cfg: &Value, case: &Value, ln: usize) -> (Vec<Mismatch>, Value, Vec<
     // wait until every thread reached its first point
     let names: Vec<String> = std::iter::once("recv".to_string())
         .chain(cfg["senderOps"].as_object().unwrap().keys().cloned())
-        .chain(flusher_ops(cfg).keys().cloned())
+        .chain(flusher_ops(cfg).iter().filter(|(_, op)| op.as_str() != Some("flushInfSame")).map(|(n, _)| n.clone()))
         .collect();
     for n in &names {
         if sched.wait_settled(n, STEP_TIMEOUT).is_none() {
@@ -382,7 +427,13 @@ fn run_case(cfg: &Value, case: &Value, ln: usize) -> (Vec<Mismatch>, Value, Vec<
             // the async send does not suspend when its trigger has already fired (try_recv): it is
             // then already parked before its next try_send and the wake-up is not a step of its own
             "SendWake" if sched.status(who) == Some(Status::Parked("try_send")) => sched.status(who),
-            _ => sched.step(who, Cmd::Go, STEP_TIMEOUT),
+            _ => {
+                if same_thread.iter().any(|f| f == who) && sched.wait_settled(who, STEP_TIMEOUT).is_none() {
+                    None
+                } else {
+                    sched.step(who, Cmd::Go, STEP_TIMEOUT)
+                }
+            }
         };
         // probe: every async flush that is waiting is re-polled, so a completion the moment it
         // becomes possible is observed (and decided at level A) even if the schedule never asks
@@ -545,12 +596,31 @@ fn run_case(cfg: &Value, case: &Value, ln: usize) -> (Vec<Mismatch>, Value, Vec<
     // tear down: abort every parked thread (a thread may park again while unwinding)
     drop(sender_opt.take());
     let mut leaked = false;
-    for n in &names {
+    // the flush0 thread becomes its same-thread followers one after the other unless it was aborted
+    let mut chain_aborted = false;
+    let flush0_actor: Option<String> = flusher_ops(cfg).iter().find(|(_, op)| op.as_str() == Some("flush0")).map(|(n, _)| n.clone());
+    let mut teardown: Vec<String> = names.clone();
+    teardown.extend(same_thread.iter().cloned());
+    for n in &teardown {
+        let is_follower = same_thread.iter().any(|f| f == n);
+        if is_follower {
+            if chain_aborted {
+                continue;
+            }
+            if sched.wait_settled(n, Duration::from_secs(5)).is_none() {
+                leaked = true;
+                continue;
+            }
+        }
+        let in_chain = is_follower || flush0_actor.as_deref() == Some(n.as_str());
         let mut tries = 0;
         loop {
             match sched.status(n) {
                 Some(Status::Finished) => break,
                 Some(Status::Parked(_)) => {
+                    if in_chain && !same_thread.is_empty() {
+                        chain_aborted = true;
+                    }
                     let _ = sched.step(n, Cmd::Abort, Duration::from_secs(5));
                 }
                 _ => {
